@@ -237,26 +237,48 @@ REFRESH_PAIRS = (("HWLOC_TOPOLOGY_FLAG_NO_CPUKINDS", "hwloc_internal_cpukinds_ra
 
 def refresh_complete(chk, P, rule="R-REFRESH", funcs=("hwloc_topology_refresh", "hwloc_topology_load")):
     """the caches that readers would otherwise refresh lazily are all made valid by hwloc_topology_refresh() and by the
-    tail of hwloc_topology_load(), each under the negation of ITS OWN NO_* flag"""
+    tail of hwloc_topology_load(), each exactly when ITS OWN NO_* flag is clear.  Decided by evaluation: the function is explored
+    with topology->flags seeded to every combination of the NO_* bits concerned; a refresher must be reachable in exactly the
+    combinations where its own bit is clear (a guard merged over two flags, or a test of the wrong flag, changes that set)."""
+    import peval, itertools
     n = 0
+    u = P.unit("topology.c")
+    bits = {}
+    for flag, callee in REFRESH_PAIRS:
+        v = u.enum_consts.get(flag)
+        if not chk.need(v is not None, "%s: %s is not an enumerator any more" % (rule, flag)):
+            return 0
+        bits[flag] = v
     for fname in funcs:
         f = P.need_func(fname, "topology.c")
-        m = must.Must(f).run()
+        tp = [p["n"] for p in f.params if f.unit.types[p["t"]].get("prec") == "hwloc_topology"]
+        if not chk.need(bool(tp), "%s: %s has no topology parameter" % (rule, fname)):
+            continue
+        key = "%s->flags" % tp[0]
+        reached = {callee: set() for _, callee in REFRESH_PAIRS}
+        words = []
+        for combo in itertools.product((0, 1), repeat=len(REFRESH_PAIRS)):
+            w = 0
+            for (flag, _), on in zip(REFRESH_PAIRS, combo):
+                if on:
+                    w |= bits[flag]
+            words.append(w)
+            def obs(nd, env, w=w):
+                if nd["k"] == "Call" and nd.get("fn") in reached:
+                    reached[nd["fn"]].add(w)
+            try:
+                peval.PathEval(P, f, {key: w}, is_effect=lambda *z: False, through_effects=True, observe=obs, track={key}, maxstates=100000).run()
+            except AnalysisBroken as ex:
+                chk.broke("%s: %s not evaluable (%s)" % (rule, fname, ex))
+                return n
         for flag, callee in REFRESH_PAIRS:
-            calls = list(f.calls(callee))
             n += 1
-            if not calls:
-                chk.inst(rule, f, "refresh:" + callee, False, "%s never calls %s" % (fname, callee))
-                continue
-            ok = True
-            why = []
-            for c in calls:
-                st = m.before.get(c["id"], frozenset())
-                conds = [x for x in st if x[0] in ("T", "F") and "HWLOC_TOPOLOGY_FLAG_NO_" in x[1]]
-                mine = [x for x in conds if flag in x[1] and x[0] == "F"]
-                others = [x for x in conds if flag not in x[1]]
-                if not mine or others:
-                    ok = False
-                    why.append("call at %s is guarded by %s" % (f.loc(c), [x[1] for x in conds] or "nothing"))
-            chk.inst(rule, f, "refresh:" + callee, ok, "%s runs in %s exactly when %s is not set%s" % (callee, fname, flag, "" if ok else " -- " + "; ".join(why)), loc=f.loc(calls[0]))
+            want = set(w for w in words if not (w & bits[flag]))
+            got = reached[callee]
+            ok = got == want
+            extra, missing = sorted(got - want), sorted(want - got)
+            chk.inst(rule, f, "refresh:" + callee, ok, "%s runs in %s exactly when %s is not set (%d flag words evaluated)%s"
+                     % (callee, fname, flag, len(words), "" if ok else " -- " + ("; ".join(filter(None, [
+                         "not reached with flags == 0x%x although its own flag is clear" % missing[0] if missing else "",
+                         "reached with flags == 0x%x although its own flag is set" % extra[0] if extra else ""])))))
     return n
